@@ -229,7 +229,7 @@ def check_collapse(ck, ds, case, valid, use_model, tag, custom):
                 return np.nansum(m, axis=a)
             coll = {"sum": cap, "first": lambda m, a: m[0]}
         kw = {}
-        if ref == 1 or ck.rng.random() < 0.5:
+        if ref == 1 or n % 2 == 0:          # reference=None (default) or the explicit name; deterministic for replays
             kw["reference"] = gref
         if coll is not None:
             kw["collapser"] = coll
